@@ -788,6 +788,13 @@ func (c *cenv) call(x *CCall) (cval, error) {
 			return cval{}, err
 		}
 		return cval{fmt.Sprintf("(fp.isNaN %s)", c.fp(a[0])), "Bool", nil}, nil
+	case "f32":
+		// rounding to float32 (the value, as a float64)
+		a, err := c.args(x, 1)
+		if err != nil {
+			return cval{}, err
+		}
+		return cval{fmt.Sprintf("((_ to_fp 11 53) RNE ((_ to_fp 8 24) RNE %s))", c.fp(a[0])), "FP", nil}, nil
 	case "i2f":
 		a, err := c.args(x, 1)
 		if err != nil {
@@ -815,6 +822,30 @@ func (c *cenv) call(x *CCall) (cval, error) {
 			return cval{}, fmt.Errorf("f2i needs ints bv64")
 		}
 		return cval{fmt.Sprintf("((_ fp.to_sbv 64) RTZ %s)", c.fp(a[0])), "ISort", types.Typ[types.Int64]}, nil
+	case "f2u":
+		a, err := c.args(x, 1)
+		if err != nil {
+			return cval{}, err
+		}
+		if !e.bv {
+			return cval{}, fmt.Errorf("f2u needs ints bv64")
+		}
+		return cval{fmt.Sprintf("((_ fp.to_ubv 64) RTZ %s)", c.fp(a[0])), "ISort", types.Typ[types.Uint64]}, nil
+	case "ftruncIn":
+		// ftruncIn(x, "lo", "hi"): lo < x < hi (the bounds are decimal literals; x truncates into (lo, hi))
+		if len(x.Args) == 3 {
+			l1, ok1 := x.Args[1].(*CLit)
+			l2, ok2 := x.Args[2].(*CLit)
+			if ok1 && ok2 {
+				lo, err1 := strconv.ParseFloat(l1.Val, 64)
+				hi, err2 := strconv.ParseFloat(l2.Val, 64)
+				v, err3 := c.term(x.Args[0])
+				if err1 == nil && err2 == nil && err3 == nil {
+					return cval{fmt.Sprintf("(and (fp.lt (toFP %s) %s) (fp.lt %s (toFP %s)))", f64bits(lo), c.fp(v), c.fp(v), f64bits(hi)), "Bool", nil}, nil
+				}
+			}
+		}
+		return cval{}, fmt.Errorf("ftruncIn(x, \"lo\", \"hi\")")
 	case "f64lit":
 		if len(x.Args) == 1 {
 			if l, ok := x.Args[0].(*CLit); ok {
